@@ -6,6 +6,7 @@ import (
 	"errors"
 	"fmt"
 	"strings"
+	"verifharness/model"
 
 	mc "github.com/ddddddO/gtree/verifmc"
 )
@@ -145,6 +146,52 @@ func init() {
 				}
 			}
 		}
+		// From-Root with the massive option: a lone root, a root with one child and a deeper tree; the writer fails at
+		// every write of the fault-free run (plain, short, transient)
+		for ti, tree := range []string{"r", "r\n  a", "r\n  a\n    b\n  c"} {
+			for _, op := range []string{"root:out-text", "root:out-json", "root:out-yaml"} {
+				mkd := func() *Drv {
+					d := NewDrv(op, "")
+					d.Root = rootOfIndented(tree)
+					return d
+				}
+				ref := mkd()
+				ref.Simple, ref.NoYield = true, true
+				rr := ref.New()
+				rr.Body()
+				rr.Finish()
+				if rr.Err != nil {
+					continue
+				}
+				full, writes := rr.Out, rr.W.writes
+				for j := 1; j <= writes && j <= 4; j++ {
+					for _, variant := range []string{"plain", "short", "transient"} {
+						d := mkd()
+						d.WriterFailAt, d.WriterShort, d.WriterOnce = j, variant == "short", variant == "transient"
+						name := fmt.Sprintf("c14/fromroot%d/%s/writer@%d/%s", ti, op, j, variant)
+						out = append(out, &Scenario{Name: name, Prop: "C14", Workers: w2, Bound: k, Policies: pols,
+							New: func() Exec { return &c14Exec{DrvRun: d.New(), full: full, name: name} }})
+					}
+				}
+			}
+		}
 		return out
 	}
+}
+
+// rootOfIndented builds a model tree from lines "name", "  child", "    grandchild" (two blanks per level).
+func rootOfIndented(s string) *model.Node {
+	var root *model.Node
+	var stack []*model.Node
+	for _, l := range strings.Split(s, "\n") {
+		lv := (len(l) - len(strings.TrimLeft(l, " "))) / 2
+		n := &model.Node{Name: strings.TrimSpace(l)}
+		if lv == 0 {
+			root = n
+		} else {
+			stack[lv-1].Kids = append(stack[lv-1].Kids, n)
+		}
+		stack = append(stack[:lv], n)
+	}
+	return root
 }
